@@ -51,7 +51,8 @@ macro_rules! c04_lambda_arity {
             assert!(r.is_ok() == want_ok);
             assert!(def.arity().can_accept(n) == want_ok);
             kani::cover!(want_ok, "reach an accepted count");
-            kani::cover!(!want_ok, "reach a rejected count");
+            // a lone rest parameter accepts every count: there is no rejected count to reach
+            kani::cover!(!want_ok || ($min == 0 && max.is_none()), "reach a rejected count (where one exists)");
             std::mem::forget(def);
         });
     };
